@@ -392,6 +392,12 @@ func c12Exec(t *testing.T, rng *vrng, plan int) (c12In, c12Obs) {
 			}
 		default: // decision
 			d := hex.EncodeToString([]byte(append(digests, "unknown")[rng.intn(len(digests)+1)]))
+			if rng.chance(12) {
+				// a digest that is not a pending one but looks like it to a fixed-width or trimming key:
+				// a zero byte in front, bytes in front (the pending digest is the tail), a zero appended
+				base := digests[rng.intn(len(digests))]
+				d = hex.EncodeToString([]byte([]string{"\x00" + base, "prefix-" + base, base + "\x00"}[rng.intn(3)]))
+			}
 			st := []int{1, 2, 1, 2, 1, 2, 0, 3, 7}[rng.intn(9)]
 			in.Steps = append(in.Steps, c12Step{T: "decision", Digest: d, Status: st})
 			dg, _ := hex.DecodeString(d)
